@@ -29,15 +29,18 @@ func c21(r *core.Report, p *core.Prog, thorough bool) {
 		return
 	}
 	vote := vs[0]
-	var sinks []*ssa.Call
-	for _, cs := range core.CallsIn(vote, false, func(c *ssa.CallCommon) bool { return isSCtxCall(c, "AddSignedTransfer") }) {
-		sinks = append(sinks, cs.Instr.(*ssa.Call))
-	}
-	if !r.Check(len(sinks) == 1, "C21.guards", "vote:one-execution-site", p.Pos(vote.Pos()), fmt.Sprintf("%d AddSignedTransfer calls", len(sinks))) {
+	// the execution site: in vote itself, or in the one helper of the package vote hands the
+	// execution to (then the guards are judged at that call, the after-execution obligations
+	// inside the helper, with its parameters bound to vote's values)
+	ls := LiftCalls(vote, func(c *ssa.CallCommon) bool { return isSCtxCall(c, "AddSignedTransfer") }, 1)
+	if !r.Check(len(ls) == 1, "C21.guards", "vote:one-execution-site", p.Pos(vote.Pos()), fmt.Sprintf("%d AddSignedTransfer calls (in vote or a helper it calls)", len(ls))) {
 		return
 	}
-	sink := sinks[0]
-	b := sink.Block()
+	sink := ls[0].Call
+	sinkFn := sink.Parent()
+	var sinkSite ssa.Instruction = ls[0].Site
+	inVote := func(v ssa.Value) ssa.Value { return ls[0].bound(v) }
+	b := sinkSite.Block()
 	r.Check(BoolFact(b, "isEmpty()", false), "C21.guards", "vote:wallet-registered", p.Pos(sink.Pos()), "an unregistered wallet rejects")
 	r.Check(HasCmp(b, "thresholdIdForSigner()", token.NEQ, "\"\""), "C21.guards", "vote:signer-registered", p.Pos(sink.Pos()), "a sender that is not a signer of the wallet rejects")
 	r.Check(BoolFact(b, "isVoteAuthorized()", true), "C21.guards", "vote:signature-authorized", p.Pos(sink.Pos()), "the vote signature must verify under the signer's key")
@@ -80,6 +83,51 @@ func c21(r *core.Report, p *core.Prog, thorough bool) {
 			}
 		}
 	}
+	if !dupOK {
+		// the scan as a boolean helper: `if p.hasVoteFrom(id) { return … }` — the helper's
+		// loop compares a recorded id with its parameter and answers true on a match; the
+		// execution lies behind its false outcome for the sender's threshold id
+		for _, cf := range callFacts(b) {
+			h := core.StaticCallee(cf.Call.Common())
+			if cf.Taken || h == nil || h.Blocks == nil || h.Pkg != vote.Pkg {
+				continue
+			}
+			argOK := false
+			for _, a := range cf.Args {
+				if strings.Contains(describe(a), "thresholdIdForSigner") {
+					argOK = true
+				}
+			}
+			scan := false
+			for _, l := range core.Loops(h) {
+				for blk := range l.Body {
+					for _, in := range blk.Instrs {
+						bo, ok := in.(*ssa.BinOp)
+						if !ok || bo.Op != token.EQL {
+							continue
+						}
+						xs, ys := describe(bo.X), describe(bo.Y)
+						if !((strings.Contains(xs, "SignerThresholdIDs") && core.ParamOf(bo.Y) != nil) || (strings.Contains(ys, "SignerThresholdIDs") && core.ParamOf(bo.X) != nil)) {
+							continue
+						}
+						for _, ref := range *bo.Referrers() {
+							if ifi, ok := ref.(*ssa.If); ok {
+								ts := ifi.Block().Succs[0]
+								if ret, isRet := ts.Instrs[len(ts.Instrs)-1].(*ssa.Return); isRet && len(ret.Results) == 1 {
+									if k, isK := ret.Results[0].(*ssa.Const); isK && k.Value != nil && k.Value.ExactString() == "true" {
+										scan = true
+									}
+								}
+							}
+						}
+					}
+				}
+			}
+			if argOK && scan {
+				dupOK = true
+			}
+		}
+	}
 	r.Check(dupOK, "C21.guards", "vote:distinct-signers", p.Pos(sink.Pos()), "a signer id already recorded on the proposal returns before the vote is counted")
 	// ---- expiry
 	fp := p.Func("(" + pkgMS + ".MultiSigSmartContract).findOrCreateProposal")
@@ -87,7 +135,7 @@ func c21(r *core.Report, p *core.Prog, thorough bool) {
 		r.Unresolved("C21.expiry", "findOrCreateProposal")
 	} else {
 		fc := findCalls(vote, fp.String())
-		r.Check(len(fc) == 1 && core.ErrLeadsToFailure(fc[0]) && Before(fc[0], sink), "C21.expiry", "vote:proposal-lookup", p.Pos(vote.Pos()), "the proposal lookup precedes the execution and its error aborts")
+		r.Check(len(fc) == 1 && core.ErrLeadsToFailure(fc[0]) && Before(fc[0], sinkSite), "C21.expiry", "vote:proposal-lookup", p.Pos(vote.Pos()), "the proposal lookup precedes the execution and its error aborts")
 		ex := methodCalls(fp, "isExpired")
 		if r.Check(len(ex) == 1, "C21.expiry", "findOrCreateProposal:expiry-test", p.Pos(fp.Pos()), fmt.Sprintf("%d isExpired calls", len(ex))) {
 			r.Check(describe(core.CallArgs(ex[0].Common())[0]) == "now", "C21.expiry", "findOrCreateProposal:expiry-now", p.Pos(ex[0].Pos()), "compared with the block time passed in")
@@ -117,15 +165,20 @@ func c21(r *core.Report, p *core.Prog, thorough bool) {
 	if ef == nil {
 		r.Unresolved("C21.once", "proposal.ExecutedInTxnHash")
 	} else {
-		ws := core.FieldWrites([]*ssa.Function{vote}, ef)
+		ws := core.FieldWrites([]*ssa.Function{sinkFn}, ef)
 		if r.Check(len(ws) == 1 && ws[0].Kind == "store", "C21.once", "vote:marks-executed", p.Pos(vote.Pos()), fmt.Sprintf("%d stores to ExecutedInTxnHash", len(ws))) {
-			r.Check(describe(ws[0].Val) == "currentTxnHash" && Before(sink, ws[0].Instr), "C21.once", "vote:executed-hash", posOf(p, ws[0].Instr), "set to "+describe(ws[0].Val)+" after the transfer is queued")
-			okm, wm := MustPassFrom(p, vote, sink, ws[0].Instr)
+			r.Check(describe(inVote(ws[0].Val)) == "currentTxnHash" && Before(sink, ws[0].Instr), "C21.once", "vote:executed-hash", posOf(p, ws[0].Instr), "set to "+describe(inVote(ws[0].Val))+" after the transfer is queued")
+			okm, wm := MustPassFrom(p, sinkFn, sink, ws[0].Instr)
 			r.Check(okm, "C21.once", "vote:always-marked", posOf(p, ws[0].Instr), "every success path after queuing the transfer marks the proposal executed; "+wm)
 			saved := false
-			for _, c := range methodCalls(vote, "putProposal") {
+			for _, c := range methodCalls(sinkFn, "putProposal") {
 				if core.Reaches(ws[0].Instr, c) {
-					ok, w := MustPassFrom(p, vote, ws[0].Instr, c)
+					ok, w := MustPassFrom(p, sinkFn, ws[0].Instr, c)
+					if sinkFn != vote {
+						if !ls[0].ErrFails() {
+							ok, w = false, w+" (the helper's failure does not fail vote)"
+						}
+					}
 					r.Check(ok && core.ErrLeadsToFailure(c), "C21.once", "vote:executed-saved", p.Pos(c.Pos()), "the executed mark is saved on every success path; "+w)
 					saved = true
 				}
@@ -146,10 +199,10 @@ func c21(r *core.Report, p *core.Prog, thorough bool) {
 			sgRoots := strings.Join(core.RootDescs(core.Slice(wsg[0].Val)), ",")
 			_ = idRoots
 			_ = sgRoots
-			r.Check(Before(wi[0].Instr, sink), "C21.vote-record", "vote:recorded-before-execution", posOf(p, wi[0].Instr), "the vote is recorded before the threshold test")
+			r.Check(Before(wi[0].Instr, sinkSite), "C21.vote-record", "vote:recorded-before-execution", posOf(p, wi[0].Instr), "the vote is recorded before the threshold test")
 			saved := false
 			for _, c := range methodCalls(vote, "putProposal") {
-				if core.Reaches(wi[0].Instr, c) && core.Reaches(c, sink) {
+				if core.Reaches(wi[0].Instr, c) && core.Reaches(c, sinkSite) {
 					saved = core.ErrLeadsToFailure(c)
 				}
 			}
@@ -171,7 +224,7 @@ func c21(r *core.Report, p *core.Prog, thorough bool) {
 	}
 	cf := p.Field(pkgMS, "proposal", "ClientSignature")
 	if cf != nil {
-		ws := core.FieldWrites([]*ssa.Function{vote}, cf)
+		ws := core.FieldWrites([]*ssa.Function{sinkFn}, cf)
 		okc := len(ws) == 1
 		if okc {
 			c, i := core.CallOf(ws[0].Val)
